@@ -10,6 +10,7 @@ import struct
 from vf import common, x86space, gnuref, x86ref
 
 PROPERTY = 'C17'
+RULE10 = ' Round 10: every transfer of part B, every transfer of part A and one other instruction in eight are printed in all five syntax variants (default, Intel, Intel objdump, AT&T binutils, AT&T objdump) and queried again: next-flow address, destination, classification, offset and length must be what they were.'
 RULE = ('(A) the C01 byte space (every opcode cell x 256 ModRM x SIB/filler classes, prefixes none/66 and, on a reduced ModRM set, 67/segment/F2/F3/F0): '
         'classification of each string accepted by both decoders without superfluous prefixes against the table {jmp, ret*, iret*, hlt, ud2: '
         'block end without fall-through; jcc, loop*, jecxz/jcxz, call: block end with fall-through and destination; everything else continues; '
@@ -17,6 +18,7 @@ RULE = ('(A) the C01 byte space (every opcode cell x 256 ModRM x SIB/filler clas
         'displacements at boundary values, decoded from a virtual stream at offsets {0,1,0x1000,0x7fffffff,0x80000000,0xfffffff0..0xffffffff}: '
         'offset recorded, getnextflow, getdstflow == (offset+l+sext(disp)) mod 2^opsize. A case = (bytes, offset); non-trivial = both decoders accept '
         '(A) / miasmX accepts the transfer (B).')
+RULE += RULE10
 RULE += ' Round 6: transfers with repeated and hint-separated operand-size prefixes (66 66 e9, 66 2e 66 e8, 67 67 e9 ...).'
 ASSUMPTIONS = ['objdump 2.40 mnemonics identify the architectural instruction class', 'target arithmetic of part B is the harness own (SDM: EIP := (EIP + sext(rel)) truncated to the operand size)']
 
@@ -83,6 +85,20 @@ def part_a(sh, items):
             sh.violation('%s/%s' % (which, mn), 'bytes %s mean "%s" (ends a block with fall-through and destination) but breakflow=%s splitflow=%s dstflow=%s' % (b[:rl].hex(), rt, bk, sp, dt), wit)
         elif want == 'cont' and (bk or sp):
             sh.violation('%s/%s' % ('breakflow' if bk else 'splitflow', mn), 'bytes %s mean "%s" (always continues) but breakflow=%s splitflow=%s' % (b[:rl].hex(), rt, bk, sp), wit)
+        if want != 'cont' or (len(b) + b[0] + b[-1]) % 8 == 0:
+            for fmt in USE_FORMATS:
+                try:
+                    ins.__str__(asm_format=fmt) if fmt else str(ins)
+                except Exception:
+                    sh.counters['A_render_raises(C10)'] += 1
+            try:
+                again = (flags(ins), ins.getnextflow())
+            except Exception as e:
+                again = ('raises', type(e).__name__)
+            sh.counters['A_requeried_after_use'] += 1
+            if again != (f, nf):
+                sh.violation('after-use/%s/%s' % ('raises:%s' % again[1] if again[0] == 'raises' else ('classification' if again[0] != f else 'nextflow'), mn if want != 'cont' else 'non-transfer'),
+                             'bytes %s (%s): after the instruction was printed in every syntax, (flags, getnextflow) went from %r to %r' % (b[:rl].hex(), rt, (f, nf), again), wit)
         if len(sh.samples) < 3 and want != 'cont':
             sh.sample({'bytes': b[:rl].hex(), 'reference': rt, 'class': want, 'breakflow/splitflow/dstflow': [bk, sp, dt]})
 
@@ -134,6 +150,9 @@ def transfer_forms():
             ('m16:call.rel16', b'\xe8', 16, 16), ('m16:call.rel32', b'\x66\xe8', 32, 32), ('m16:jcc4.rel8', b'\x74', 8, 16), ('m16:jcc4.rel8.o32', b'\x66\x74', 8, 32),
             ('m16:jcc5.rel16', b'\x0f\x85', 16, 16), ('m16:jcc5.rel32', b'\x66\x0f\x85', 32, 32), ('m16:loop', b'\xe2', 8, 16)]
     return out
+
+
+USE_FORMATS = (None, 'intel_syntax noprefix', 'intel_syntax noprefix objdump', 'att_syntax binutils', 'att_syntax objdump')
 
 
 def part_b(sh, forms, offsets, seed):
@@ -190,6 +209,22 @@ def part_b(sh, forms, offsets, seed):
                 bk, sp, dt = fl
                 if exp == 'end' and not (bk and not sp) or exp == 'split' and not (bk and sp and dt):
                     sh.violation('classification/%s' % fam, '%s: breakflow=%s splitflow=%s dstflow=%s' % (enc.hex(), bk, sp, dt), wit)
+                # the same object after it has been used: printed in every syntax and queried repeatedly, it must still answer as before
+                for fmt in USE_FORMATS:
+                    try:
+                        ins.__str__(asm_format=fmt) if fmt else str(ins)
+                    except Exception:
+                        sh.counters['B_render_raises(C10)'] += 1
+                try:
+                    again = (ins.getnextflow(), [int(x) if hasattr(x, '__int__') else repr(x) for x in ins.getdstflow()], flags(ins), ins.offset, ins.l)
+                    first = (nf, [int(x) if hasattr(x, '__int__') else repr(x) for x in dst], fl, off if ins.offset == off else ins.offset, len(enc))
+                except Exception as e:
+                    again, first = ('raises', type(e).__name__), None
+                sh.counters['B_requeried_after_use'] += 1
+                if again != first:
+                    what = 'raises:%s' % again[1] if first is None else ['nextflow', 'target', 'classification', 'offset', 'length'][[k for k in range(5) if again[k] != first[k]][0]]
+                    sh.violation('after-use/%s/%s' % (what, fam), '%s at 0x%x: after the instruction was printed in every syntax and queried again, (getnextflow, getdstflow, flags, offset, l) went from %r to %r' % (
+                        enc.hex(), off, first, again), wit)
                 if len(sh.samples) < 3:
                     sh.sample({'bytes': enc.hex(), 'offset': hex(off), 'disp': d, 'getdstflow': hex(int(dst[0])) if dst and hasattr(dst[0], '__int__') else str(dst), 'expected': hex(want)})
 
